@@ -114,6 +114,32 @@ def gen_dgm(ctx, mode, scale, nmax=7, diag_p=0.0, nmin=1):
     return bars
 
 
+def short_bars(ctx, lo, hi, steps):
+    """a diagram whose bars are all shorter than a step of the grid [lo, hi] x steps: no bar is visible on the grid, the
+    grid landscape is the zero function with one zero row (/repo fix 357d745; before it: the string placeholder ['empty'],
+    on which sup_norm / p_norm / arithmetic raised)"""
+    r = ctx.rng
+    step = (hi - lo) / (steps - 1)
+    out = []
+    for _ in range(r.randint(1, 4)):
+        b = lo + r.randint(0, 4 * (steps - 1) - 3) * step / 4.0
+        out.append([b, b + r.choice([0.25, 0.5, 0.75]) * step])
+    return out
+
+
+def zero_function_check(A):
+    """the norms of a grid landscape on which no bar is visible: None if it behaves as the zero function, else what fails"""
+    for what, thunk in (("sup_norm()", lambda: A.sup_norm()), ("p_norm(2)", lambda: A.p_norm(2)), ("p_norm(1.5)", lambda: A.p_norm(1.5)),
+                        ("(A - A).sup_norm()", lambda: (A - A).sup_norm()), ("(2 * A).p_norm(3)", lambda: (2 * A).p_norm(3))):
+        try:
+            v = fl(quiet(thunk))
+        except Exception as e:
+            return "%s raised %s" % (what, type(e).__name__)
+        if v != 0.0:
+            return "%s = %r instead of 0" % (what, v)
+    return None
+
+
 def gen_family(ctx, k, diag_p=0.0):
     """k diagrams sharing coordinate mode and scale (so that their landscapes overlap and differences change sign)"""
     r = ctx.rng
@@ -410,9 +436,27 @@ def run(ctx):
         if r.random() < 0.3:                       # grid strictly inside / outside the support
             lo, hi = lo + 0.25 * (hi - lo) * r.choice([-1, 1]), hi + 0.25 * (hi - lo) * r.choice([-1, 1])
         steps = r.choice([5, 9, 13, 17, 24, 33, 40])
+        if r.random() < 0.15 and hi > lo:          # a landscape on which no bar is visible: the zero function, one zero row
+            dgms[r.randrange(3)] = short_bars(ctx, lo, hi, steps)
         As = [mk_grid(d, lo, hi, steps) for d in dgms]
-        if not all(grid_ok(A) for A in As):
-            ctx.count("grid:empty_values_skipped")
+        bad = None
+        for d, A in zip(dgms, As):
+            if not grid_ok(A):                     # nothing is skipped: non-numeric values are a failing input
+                bad = bad or (d, A)
+            elif not np.asarray(A.values).any():
+                ctx.count("grid:zero_landscape(no visible bar)")
+                z = zero_function_check(A)
+                ctx.test("zero_grid_landscape_has_zero_norms", z is None)
+                if z is not None:
+                    bad = bad or (d, A)
+        if bad is not None:
+            d, A = bad
+            z = zero_function_check(A)
+            ctx.violation("the grid landscape of %r on [%r, %r] x %d (no bar visible; values = %r) does not behave as the zero "
+                          "function: %s" % (d, lo, hi, steps, np.asarray(A.values).tolist()[:2], z),
+                          {"kind": "zero_grid", "dgm": d, "start": lo, "stop": hi, "steps": steps}, found_input=True)
+            if len(ctx.violations) > 5:
+                return
             continue
         kind, cs, A = combine(ctx, As)
         ctx.count("grid:" + kind)
@@ -538,7 +582,9 @@ def eval_laws(case, ctx=None):
         hi = max(b[1] for d in dg for b in d)
         Ls = [mk_grid(d, lo, hi, case["steps"]) for d in dg]
         if not all(grid_ok(A) for A in Ls):
-            return None
+            # non-numeric values (the former placeholder ['empty']): every law below would raise
+            return {"grid_values_numeric": False, "_why": [zero_function_check(A) for A in Ls if not grid_ok(A)][:1]}
+        res["grid_values_numeric"] = True
         step = (hi - lo) / (case["steps"] - 1)
         fired = False
     else:
@@ -620,11 +666,16 @@ def laws(ctx):
             p = int(p) if float(p).is_integer() else p
         c = r.choice([-1.0, 2.0, -0.5, 3.0, 1024.0, -1.0 / 3.0, round(r.uniform(-5, 5), 2) or 1.0])
         use_grid = r.random() < 0.35
-        case = law_case(dgms, p, c, use_grid, r.choice([9, 17, 33, 40]), perturb)
+        steps = r.choice([9, 17, 33, 40])
+        if use_grid and r.random() < 0.15:
+            lo = min(b[0] for d in dgms[:2] for b in d)
+            hi = max(b[1] for d in dgms[:2] for b in d)
+            if hi > lo:
+                # bars shorter than a step, inside the range of the other two diagrams (the family's grid stays [lo, hi])
+                dgms[2] = short_bars(ctx, lo, hi, steps)
+                ctx.count("laws:grid_with_zero_landscape")
+        case = law_case(dgms, p, c, use_grid, steps, perturb)
         res = eval_laws(case)
-        if res is None:
-            ctx.count("laws:grid_empty_skipped")
-            continue
         ctx.count("laws:" + ("grid" if use_grid else "exact"))
         if res.get("_ill"):
             ctx.count("laws:ill_conditioned")
@@ -688,6 +739,11 @@ def replay(ctx, rep):
         v, o = fl(L.sup_norm()), oracle_sup(c["cps"])
         print("sup_norm = %r, largest |value| = %r" % (v, o))
         return v == o
+    if kind == "zero_grid":
+        A = mk_grid(c["dgm"], c["start"], c["stop"], c["steps"])
+        z = zero_function_check(A)
+        print("values:", np.asarray(A.values).tolist()[:2], "->", z or "behaves as the zero function")
+        return z is None
     if kind == "law":
         res = eval_laws(c)
         print("laws:", res)
